@@ -382,6 +382,12 @@ def build_move(spec: dict, env: MoveEnv, path: str):
         mv.max_attempts = int(spec["max_attempts"])
     if "default_label" in spec and t in ("disp", "exch"):
         mv.default_label = spec["default_label"]
+    if spec.get("via_copy") and t in ("disp", "exch", "cell"):
+        # the user configures a move and hands a copy of it to the simulation (copy(move) goes through the move's
+        # dictionary form): the copy must be configured like the original
+        import copy as _copy
+
+        mv = _copy.copy(mv)
     if w.opts.get("record_ops") and t in ("disp",):
         sink = []
         mv.operation = RecordingOp(mv.operation, sink)
@@ -669,6 +675,22 @@ class World:
     @staticmethod
     def _atoms_arrays(atoms):
         return {k: (str(v.dtype), v.shape, v.tobytes()) for k, v in sorted(atoms.arrays.items())}
+
+    def spec_of_path(self, path: str):
+        """The scenario's specification of the elementary move built at `path` ('<entry>', '<entry>.<i>' for the members
+        of a sum / wrap, '<entry>.x' for the repeated member of a product); None for moves the package created."""
+        parts = path.split(".")
+        spec = next((e["move"] for i, e in enumerate(self.sc["moves"]) if e.get("name", f"m{i}") == parts[0]), None)
+        for part in parts[1:]:
+            if spec is None:
+                return None
+            if part == "x" and spec.get("type") == "mul":
+                spec = spec["item"]
+            elif part.isdigit() and spec.get("type") in ("sum", "wrap") and int(part) < len(spec["items"]):
+                spec = spec["items"][int(part)]
+            else:
+                return None
+        return spec
 
     def label_moves(self):
         """(path, move) of every label-bearing elementary move: the ones the user built, plus any the package put
